@@ -324,6 +324,13 @@ def E(name, sets, f_enc, f_dec, rust, proto, gen, nth_enc=None, nth_dec=None, ru
              proto, gen, [rust] + (rust_alias or []), note)
 
 
+# variants whose round trip is KNOWN to fail on the pinned tree (listed in known_findings.json): the generated check
+# excludes them (known_bad_X) and reports them separately; every other failure is a new violation
+KNOWN_BAD = {
+    "Operator": ["Arrow", "LongArrow", "HashArrow", "HashLongArrow", "AtAt", "IntegerDivide", "HashMinus", "AtQuestion", "Question",
+                 "QuestionAnd", "QuestionPipe", "Colon"],
+}
+
 L, P = "logical", "physical"
 B = [L, P]
 TABLES = [
@@ -523,7 +530,8 @@ def translate(repo, t):
                 raise Fail("%s.dec: decodes to %s which is not among the encoded variants %s" % (name, var, variants))
     return {"name": name, "kind": kind, "proto": t["proto"], "rust": t["rust"][0], "variants": [v for v in variants if v not in extra],
             "enc": enc, "dec": dec, "dec_default": dec_default, "nums": nums, "decode_only": extra,
-            "enc_at": "%s:%d" % (rel_e, line_e), "dec_at": "%s:%d" % (rel_d, line_d), "note": t["note"]}
+            "enc_at": "%s:%d" % (rel_e, line_e), "dec_at": "%s:%d" % (rel_d, line_d), "note": t["note"],
+            "known_bad": [v for v in KNOWN_BAD.get(name, []) if v in variants]}
 
 
 # ---------------------------------------------------------------------------------------------- Coq emission
@@ -572,14 +580,32 @@ def emit(tables, setname):
             o.append("Definition dec_%s (s : string) : option %s :=\n    %s." % (n, n, body))
             o.append("Definition tag_eqb_%s : string -> string -> bool := String.eqb." % n)
         o.append("Definition table_%s : enum_table %s %s := mk_table all_%s eqb_%s enc_%s dec_%s name_%s." % (n, n, tagty, n, n, n, n, n))
-        o.append("Definition table_ok_%s : bool := table_ok table_%s." % (n, n))
-        o.append("Definition bad_variants_%s : list string := bad_variants table_%s." % (n, n))
+        kb = [v for v in KNOWN_BAD.get(n, []) if v in vs]
+        o.append("Definition known_bad_%s : list %s := [%s]." % (n, n, "; ".join(c(v) for v in kb)))
+        o.append("Definition good_%s (v : %s) : bool := negb (listed table_%s known_bad_%s v)." % (n, n, n, n))
+        o.append("Definition table_ok_%s : bool := table_ok table_%s known_bad_%s." % (n, n, n))
+        o.append("Definition bad_variants_%s : list string := bad_variants table_%s known_bad_%s." % (n, n, n))
+        o.append("Definition stale_listed_%s : list string := stale_listed table_%s known_bad_%s." % (n, n, n))
         o.append("Definition clash_variants_%s : list (string * string) := clash_variants tag_eqb_%s table_%s." % (n, n, n))
         o.append("")
     names = [t["name"] for t in tables]
     o.append("(* every generated table, by name, with its executable check *)")
     o.append("Definition generated_tables_%s : list (string * bool * list string * list (string * string)) :=\n  [%s]." % (
         setname, ";\n   ".join("(%s, table_ok_%s, bad_variants_%s, clash_variants_%s)" % (coq_str(n), n, n, n) for n in names)))
+    zt = [t["name"] for t in tables if t["kind"] == "enum"]
+    st = [t["name"] for t in tables if t["kind"] != "enum"]
+    body = "false"
+    for n in reversed(zt):
+        body = "if String.eqb tbl %s then obs_ok Z.eqb table_%s v tag back else\n    %s" % (coq_str(n), n, body)
+    o.append("(* correspondence with the implementation: table name -> table *)")
+    o.append("Definition obs_z_%s (tbl v : string) (tag : Z) (back : option string) : bool :=\n    %s." % (setname, body))
+    body = "false"
+    for n in reversed(st):
+        body = "if String.eqb tbl %s then obs_ok String.eqb table_%s v tag back else\n    %s" % (coq_str(n), n, body)
+    o.append("Definition obs_s_%s (tbl v : string) (tag : string) (back : option string) : bool :=\n    %s." % (setname, body))
+    o.append("Definition check_case_%s (c : pc_case) : bool :=\n  match c with PCz t v tag b => obs_z_%s t v tag b | PCs t v tag b => obs_s_%s t v tag b end." % (setname, setname, setname))
+    o.append("Definition generated_stale_%s : list (string * list string) :=\n  [%s]." % (
+        setname, ";\n   ".join("(%s, stale_listed_%s)" % (coq_str(n), n) for n in names)))
     return "\n".join(o) + "\n"
 
 
